@@ -759,6 +759,12 @@ class InstrOps:
             return IterV_(o.id)
         # map: snapshot entries over alternatives
         ents = []
+        c = getattr(self, "conc", None)
+        if c is not None and c.recording is not None and any(r is not None and c.is_shared(self.heap[r.obj]) for g, r in x.alts):
+            kt, et = self.map_types(ins["xt"])
+            ents = c.map_range(x, guard, kt, et)
+            o = self.alloc("iter", None, {"kind": "map", "ents": ents, "pos": 0, "kt": kt, "et": et, "mapptr": x, "snapshot": True}, site="range")
+            return IterV_(o.id)
         for g, r in x.alts:
             if r is None:
                 continue
@@ -818,7 +824,10 @@ class InstrOps:
                 continue
             # current value in map may differ from the snapshot for values: Go reads live values; re-read
             kv = self.ite(c, k, kv, kt)
-            live, _found = self.map_lookup(st["mapptr"], k, guard, et)
+            if st.get("snapshot"):
+                live = v
+            else:
+                live, _found = self.map_lookup(st["mapptr"], k, guard, et)
             vv = self.ite(c, live, vv, et)
             npos = i_ite(c, j + 1, npos, 64)
             okv = b_or(okv, c)
@@ -1147,10 +1156,15 @@ class InstrOps:
     # ------------------------------------------------------------------ channels (sequential semantics; conc layer overrides)
     def i_MakeChan(self, fr, env, ins, guard, state):
         size = self.val(env, ins["size"])
-        if not isinstance(size, int):
-            raise Unsupported("symbolic channel size")
         t, d = self.prog.under(ins["type"])
-        o = self.alloc("chan", d["elem"], ChanVal(size, [self.zero(d["elem"]) for _ in range(size)], 0, False), site="%s:%s" % (fr.fn["name"], ins.get("reg")))
+        if not isinstance(size, int):
+            n = self.opts.get("sym_chan_cap", 4)
+            self.assume(b_and(int_cmp(">=", size, 0, 64, True), int_cmp("<=", size, n, 64, True)), guard, "make(chan, n): symbolic n <= %d" % n)
+            self.note("bounds", "symbolic channel capacity bounded by %d" % n)
+            nslots = n
+        else:
+            nslots = size
+        o = self.alloc("chan", d["elem"], ChanVal(size, [self.zero(d["elem"]) for _ in range(nslots)], 0, False), site="%s:%s" % (fr.fn["name"], ins.get("reg")))
         return Ptr.to(o.id)
 
     def chan_len(self, ch, guard):
@@ -1195,7 +1209,7 @@ class InstrOps:
             if gg is False:
                 continue
             buf = []
-            for i in range(cv.cap):
+            for i in range(len(cv.buf)):
                 c = b_and(gg, int_cmp("==", cv.len, i, 64, True))
                 buf.append(self.ite(c, x, cv.buf[i], o.tid))
             o.val = ChanVal(cv.cap, buf, i_ite(gg, int_binop("+", cv.len, 1, 64, True), cv.len, 64), cv.closed)
@@ -1217,11 +1231,12 @@ class InstrOps:
             cv = o.val
             nonempty = int_cmp(">", cv.len, 0, 64, True)
             gg = b_and(guard, g, nonempty)
-            head = cv.buf[0] if cv.cap > 0 else self.zero(o.tid)
-            if gg is not False and cv.cap > 0:
+            ns = len(cv.buf)
+            head = cv.buf[0] if ns > 0 else self.zero(o.tid)
+            if gg is not False and ns > 0:
                 buf = []
-                for i in range(cv.cap):
-                    nxt = cv.buf[i + 1] if i + 1 < cv.cap else self.zero(o.tid)
+                for i in range(ns):
+                    nxt = cv.buf[i + 1] if i + 1 < ns else self.zero(o.tid)
                     buf.append(self.ite(gg, nxt, cv.buf[i], o.tid))
                 o.val = ChanVal(cv.cap, buf, i_ite(gg, int_binop("-", cv.len, 1, 64, True), cv.len, 64), cv.closed)
             v = self.ite(nonempty, head, self.zero(o.tid), o.tid)
